@@ -390,33 +390,9 @@
 		assert!(f.len() == 3 && f[0] == 0x01 && f[1] == 1 && f[2] == 0x00);
 	}
 
-	/// @ob yasna.oid.short_arcs @props C04 @kind bounded @tier thorough @timeout 1200 @mem 16 @bound "OID 2.5.x.y with symbolic x, y < 128 (one content octet each)" @fns yasna::DERWriter::write_oid
-	#[kani::proof]
-	#[kani::unwind(12)]
-	fn yasna_oid_short_arcs() {
-		let x: u64 = kani::any();
-		let y: u64 = kani::any();
-		kani::assume(x < 128 && y < 128);
-		kani::cover!(true, "reachable");
-		let der = yasna::construct_der(|w| w.write_oid(&ObjectIdentifier::from_slice(&[2, 5, x, y])));
-		// X.690 8.19: first octet 40*2+5 = 85; each further arc base-128, minimal
-		assert!(der.len() == 5 && der[0] == 0x06 && der[1] == 3 && der[2] == 85 && der[3] == x as u8 && der[4] == y as u8);
-	}
-
-	/// @ob yasna.set_of.sorted @props C04,C07 @kind bounded @tier thorough @timeout 1200 @mem 16 @bound "SET OF two elements, each an OCTET STRING of one symbolic byte" @fns yasna::DERWriter::write_set_of
-	#[kani::proof]
-	#[kani::unwind(12)]
-	fn yasna_set_of_sorted() {
-		let a: u8 = kani::any();
-		let b: u8 = kani::any();
-		kani::cover!(true, "reachable");
-		let der = yasna::construct_der(|w| w.write_set_of(|w| { w.next().write_bytes(&[a]); w.next().write_bytes(&[b]); }));
-		// X.690 11.6: the encodings of a SET OF are sorted ascending
-		assert!(der.len() == 8 && der[0] == 0x31 && der[1] == 6);
-		assert!(der[2] == 0x04 && der[3] == 1 && der[5] == 0x04 && der[6] == 1);
-		assert!(der[4] <= der[7]);
-		assert!((der[4] == a && der[7] == b) || (der[4] == b && der[7] == a));
-	}
+	// yasna.oid (symbolic arcs) and yasna.set_of (two symbolic one-byte elements) were tried: CBMC resource failure
+	// (data-dependent buffer lengths / sorting). The OID and SET OF encoders stay in the assumed contract on yasna;
+	// the OID *values* rcgen writes are checked byte for byte in the algid / extension / AKI / key-usage harnesses.
 
 	/// @ob yasna.length.long_form @props C04 @kind bounded @tier thorough @timeout 1200 @mem 16 @bound "OCTET STRING of 130 zero bytes (long-form length)" @fns yasna::DERWriter::write_bytes
 	#[kani::proof]
